@@ -235,8 +235,13 @@ def main():
         "wall_s": round(wall, 2),
         "violations": reported + (1 if (exit_code == 1 and reported == 0) else 0),
     }
-    os.makedirs(os.path.join(VERIF, "evidence"), exist_ok=True)
-    with open(os.path.join(VERIF, "evidence", f"{pid}.json"), "w") as f:
+    # evidence describes runs against /repo itself; a run against a scratch copy (VERIF_REPO:
+    # seeded changes, refactorings) writes its record elsewhere so that it can never be committed
+    # as the evidence of the property
+    scratch = os.environ.get("VERIF_REPO", "/repo") != "/repo"
+    evdir = os.path.join(VERIF, "replays", "scratch-evidence") if scratch else os.path.join(VERIF, "evidence")
+    os.makedirs(evdir, exist_ok=True)
+    with open(os.path.join(evdir, f"{pid}.json"), "w") as f:
         json.dump(ev, f, indent=1)
     print(f"{pid} tier={tier} seed={seed}: theorems {len(aud['clean'])}/{nthe} clean, "
           f"{ctx.evaluations} scenarios ({len(ctx.nontrivial)} distinct non-trivial), "
@@ -244,5 +249,22 @@ def main():
     return exit_code
 
 
+def _restore_generated():
+    """a run against a scratch copy regenerated lean/Treepath/Generated from that copy; put the
+    facts of /repo back so that the tree (and anything committed from it) describes /repo"""
+    if os.environ.get("VERIF_REPO", "/repo") == "/repo" or not os.path.isdir("/repo/src/treepath"):
+        return
+    try:
+        import subprocess
+        env = dict(os.environ, VERIF_REPO="/repo", PYTHONPATH="/repo/src:" + HERE)
+        subprocess.run([sys.executable, os.path.join(HERE, "gen_facts.py")], env=env, capture_output=True, timeout=120)
+    except Exception:  # noqa
+        pass
+
+
 if __name__ == "__main__":
-    sys.exit(main())
+    try:
+        rc = main()
+    finally:
+        _restore_generated()
+    sys.exit(rc)
